@@ -1565,6 +1565,12 @@ func (dsc *dataStoreCommand) lmove(srcKeyName, destKeyName string, srcLeft, dest
 	}
 	element := item.element
 
+	// the pop removes a key whose list became empty: when source and destination are the same key
+	// holding one element, the destination has to be looked up (and created) again
+	if srcList.count == 0 && srcKeyName == destKeyName {
+		destList, _ = dsc.ensureListUnlocked(destKeyName)
+	}
+
 	// place the item into the dest list
 	if destLeft {
 		dsc.lpushUnlocked(destKeyName, destList, element)
